@@ -1,13 +1,38 @@
 package main
 
+import (
+	"fmt"
+	"sort"
+	"strings"
+
+	"github.com/zclconf/go-cty/cty"
+)
+
+func encMarks(m cty.ValueMarks) string {
+	ms := make([]string, 0, len(m))
+	for k := range m {
+		ms = append(ms, encStr(fmt.Sprint(k)))
+	}
+	sort.Strings(ms)
+	return "(" + strings.Join(ms, " ") + ")"
+}
+
 func init() {
-	register("selftest", "wire codec echo over generated values", func(ctx *Ctx) {
+	register("selftest", "wire codec echo and observers over generated values", func(ctx *Ctx) {
 		o := ValOpts{Unknown: true, Null: true, Marks: true, DynVal: true}
 		for i := 0; i < ctx.N(5000, 50000); i++ {
 			t := genTy(ctx.R, 3, TyOpts{Dyn: true, Opt: false, Capsule: true})
 			v := genVal(ctx.R, t, 3, o)
 			w := encVal(v)
 			ctx.Add("val.echo", w, w)
+			_, dm := v.UnmarkDeep()
+			ctx.Add("val.obs", fmt.Sprintf("%s %s %s %s %s %s %s", encBool(v.IsNull()), encBool(v.IsKnown()), encBool(v.IsMarked()),
+				encBool(v.ContainsMarked()), encBool(v.IsWhollyKnown()), encMarks(v.Marks()), encMarks(dm)), w)
+			ud, _ := v.UnmarkDeep()
+			ctx.Add("val.unmarkdeep", encVal(ud), w)
+			u1, _ := v.Unmark()
+			ctx.Add("val.unmark", encVal(u1), w)
+			ctx.Add("val.withmarks", encVal(v.WithMarks(cty.NewValueMarks("m2", "m0"))), w, "(x6d32 x6d30)")
 			ctx.Eval(w, true)
 		}
 	})
